@@ -445,7 +445,10 @@ def c09(ctx):
         ctx.random_validate("life", 48, 60)
         # a failed rotation (randomness source) must not put live keys on the disclosure list
         ctx.random_validate("randfail", 64, 90)
+        # duplicates: a refused copy must not cost the accepted original's MAC key its disclosure
+        ctx.random_validate("bag", 32, 60)
     else:
+        ctx.random_validate("bag", 320, 150)
         ctx.random_validate("randfail", 640, 90)
         ctx.model("c09-5x4", dict(DATA33, MaxSend=5, MaxFlight=4), inv)
         ctx.model("c09-tick", dict(DATA33, MaxSend=3, MaxFlight=3, MaxTick=2, MaxExtra=2), inv)
@@ -709,6 +712,7 @@ def c12(ctx):
     ctx.random_validate("smpdev", 64 if q else 960, 3 if q else 6)
     ctx.random_validate("smpdeg", 32, 1)
     ctx.random_validate("smpcount", 128, 1)
+    ctx.random_validate("smpbigq", 16, 1)
     ctx.random_validate("smp", 32 if q else 320, 4 if q else 10)
 
 
